@@ -65,7 +65,7 @@ func genConcCase(rng *simrt.Rng, o *ConcOpts) *ConcCase {
 			// differently the run simply does not resize). A bounded cache gets a maximum just above the
 			// threshold, so that an entry the policy loses track of shows as an exceeded bound.
 			cfg.InitCap = 480
-			n = 468 + rng.Intn(12)
+			n = 476 + rng.Intn(5)
 			if cfg.bounded() {
 				// the policy is at its limit from the first fresh key on: every insert evicts (one more
 				// remover at work while the table is copied) and an entry the policy has lost track of
@@ -161,10 +161,10 @@ func genConcCase(rng *simrt.Rng, o *ConcOpts) *ConcCase {
 			case resize == 3:
 				// fresh keys push the big table over its grow threshold while other tasks remove or
 				// rewrite filler keys (the buckets being copied are busy)
-				switch rng.Intn(3) {
-				case 0:
+				switch rng.Intn(4) {
+				case 0, 1: // (a growth is only triggered by an insert that finds its bucket full)
 					ops = append(ops, Op{Kind: "set", K: 1000 + t*100 + i, V: g.newVal()})
-				case 1:
+				case 2:
 					ops = append(ops, Op{Kind: "invalidate", K: 100 + rng.Intn(400)})
 				default:
 					ops = append(ops, Op{Kind: "set", K: 100 + rng.Intn(400), V: g.newVal()})
